@@ -263,7 +263,7 @@ fn enforce_case(rng: &mut Rng, ctx: &mut Ctx) {
     };
     let shape = if rng.bool() { Shape::Unary } else { Shape::ServerStream };
     let script = Script { latency_ms: latency, msgs: vec![crate::pb::Msg { data: vec![1; 10], seq: 1, tag: "ok".into() }], ..Default::default() };
-    let spec = CallSpec { id: "t0".into(), shape, req_msgs: vec![crate::pb::Msg::default()], req_meta: malformed.map(|m| vec![("grpc-timeout".to_string(), crate::gen::MVal::Ascii(m.to_string()))]).unwrap_or_default(), req_pend: vec![], req_gaps_ms: vec![], timeout: header_ms.map(Duration::from_millis) };
+    let spec = CallSpec { id: "t0".into(), shape, req_msgs: vec![crate::pb::Msg::default()], req_meta: malformed.map(|m| vec![("grpc-timeout".to_string(), crate::gen::MVal::Ascii(m.to_string()))]).unwrap_or_default(), req_pend: vec![], req_gaps_ms: vec![], timeout: header_ms.map(Duration::from_millis), pingpong: None };
     let sc = Scenario {
         conns: 1,
         lazy: vec![rng.bool()],
